@@ -257,3 +257,27 @@ package trie
 //@   loop 0: invariant n != nil && fresh(n) && i >= 0 && i <= 16 && typeid(n.Children[16]) == 0
 //@   ensures [value]   result1 == nil && typeid(result0.Children[16]) != 0 ==> istype(result0.Children[16], valueNode) && len(unbox(result0.Children[16], valueNode)) == ghost(splitlen)
 //@   ensures [novalue] result1 == nil && typeid(result0.Children[16]) == 0 ==> ghost(splitlen) == 0
+
+// ---------------------------------------------------------------------------------------------
+// Modified paths are re-hashed (C02: the root is a function of the content, not of the history). A node that delete
+// hands back as changed carries no cached hash and is marked dirty - the hasher returns a cached hash without looking
+// at anything else, and the node store files a node under it.
+//@ spec macro fn unhashed(n node) bool = (istype(n, *shortNode) ==> unbox(n, *shortNode) != nil && unbox(n, *shortNode).flags.hash == nil && unbox(n, *shortNode).flags.dirty) && (istype(n, *fullNode) ==> unbox(n, *fullNode) != nil && unbox(n, *fullNode).flags.hash == nil && unbox(n, *fullNode).flags.dirty)
+
+//@ func Trie.resolve
+//@   option trusted
+//@   modifies nothing
+
+//@ func Trie.resolveHash
+//@   option trusted
+//@   modifies nothing
+
+//@ func Trie.delete
+//@   property C02
+//@   # (index/nil safety of the walk rests on the structural invariant of tries - keys end with the terminator nibble,
+//@   # node interfaces hold non-nil pointers - which is not under contract)
+//@   option maypanic nosafety
+//@   requires t != nil
+//@   loop 0: invariant true
+//@   ensures [rehash] result0 && result2 == nil ==> unhashed(result1)
+
